@@ -2,6 +2,7 @@ import Tv.GenClosures
 import Tv.Thm.C02Gen
 import Tv.Lemmas.GenSim
 import Tv.Thm.C04
+import Tv.Thm.C11GenA
 import Mathlib.Tactic.Ring
 import Mathlib.Tactic.FieldSimp
 import Mathlib.Tactic.NormNum
@@ -660,4 +661,358 @@ theorem ts_vreg_resid_mean_from_source (sqrt : Rat → Rat) (xs : List (Option R
       (rolling1 (trendMsr (effMp mp w 0)) xs w)) xs w :=
   C02Gen.e2e_apply _ xs w hw (ts_vreg_resid_mean_exact sqrt .to xs w mp hw) (ts_vreg_resid_mean_exact sqrt .iter xs w mp hw)
 
+/-! ## the residual closures, value for value: regenerated closure + regenerated aggregation
+
+The mapped range `(start.unwrap_or(0)..=end).map(|j| …)` of the three `rolling2_apply_idx` closures
+hands the residuals of the window (NaN on incomplete pairs) to `vmean` / `vstd(2)` / `vskew(3)` of
+agg.rs, regenerated in `GenAgg.lean`.  `*_emit` relates one call's result to the model's
+`emitResid`; `*_exact` composes with `C04.vregx_resid_*_exact`; `*_from_source` adds the regenerated
+two-series index driver. -/
+
+/-- one residual of the generated mapped range: `vy - alpha - beta * vx` on a complete pair, NaN otherwise -/
+def residOf (alpha beta : Rat) : Pair → Option Rat
+  | (some y, some x) => some (y - alpha - beta * x)
+  | _ => none
+
+/-- the valid (non-NaN) entries, as the aggregations of agg.rs see them -/
+def valids : List (Option Rat) → List Rat
+  | [] => []
+  | none :: l => valids l
+  | some v :: l => v :: valids l
+
+theorem resids_valids (alpha beta : Rat) (q : List Pair) :
+    resids alpha beta q = valids (q.map (residOf alpha beta)) := by
+  unfold resids
+  induction q with
+  | nil => rfl
+  | cons p q ih =>
+    obtain ⟨a, b⟩ := p
+    cases a <;> cases b <;> simp [List.filterMap_cons, residOf, valids, ih]
+
+theorem vfoldN_valids (f : Rat → Rat) (L : List (Option Rat)) (n : Nat) (a : Rat) :
+    List.foldl (C11.vfoldNStep (fun acc x => acc + f x)) (n, a) L =
+      (n + (valids L).length, (valids L).foldl (fun acc v => acc + f v) a) := by
+  induction L generalizing n a with
+  | nil => simp [valids]
+  | cons x L ih =>
+    cases x with
+    | none => simpa [C11.vfoldNStep, valids] using ih n a
+    | some v =>
+      rw [List.foldl_cons]
+      simp only [C11.vfoldNStep, valids, List.length_cons, List.foldl_cons]
+      rw [ih]; congr 1; omega
+
+/-- `vmean` (regenerated) of a list of optional residuals against the model's `aggMean` of the valid ones -/
+theorem vmean_resid (sqrt : Rat → Rat) (L : List (Option Rat)) :
+    Agree sqrt (GenAgg.vmean.run sqrt L) (aggMean (valids L)) := by
+  have h := C11Gen.vmean_agree sqrt L
+  unfold C11.vmean C11.vfoldN at h
+  have e := vfoldN_valids (fun x => x) L 0 0
+  rw [e] at h
+  unfold aggMean msum
+  simp only [Nat.zero_add, id_eq] at h ⊢
+  by_cases hl : (valids L).length ≥ 1
+  · simpa only [hl, if_true] using h
+  · simp only [hl, if_false, Agree]
+
+theorem agree_ite_degen (sqrt : Rat → Rat) (c : Prop) [Decidable c] (o : Option Rat) (t : Out)
+    (h : ¬ c → Agree sqrt o t) : Agree sqrt o (if c then .degen else t) := by
+  by_cases hc : c
+  · simp only [hc, if_true]; trivial
+  · simp only [hc, if_false]; exact h hc
+
+/-- the aggregate of the generated mapped range `(start.unwrap_or(0)..=end).map(|j| …)` -/
+theorem mean_emit_core (sqrt : Rat → Rat) (xs ys : List (Option Rat)) (alpha beta : Rat) (a n : Nat)
+    (F : Nat → Option Rat) (hF : ∀ j, F j = residOf alpha beta (ugetPair xs ys j)) :
+    Agree sqrt (GenAgg.vmean.run sqrt ((List.range' a n).map F))
+      (aggMean (resids alpha beta ((List.range' a n).map (ugetPair xs ys)))) := by
+  have : (List.range' a n).map F = ((List.range' a n).map (ugetPair xs ys)).map (residOf alpha beta) := by
+    rw [List.map_map]; apply List.map_congr_left; intro j _; exact hF j
+  rw [this, resids_valids]
+  exact vmean_resid sqrt _
+
+theorem ts_vregx_resid_mean_emit (sqrt : Rat → Rat) (xs ys : List (Option Rat)) (len w mp : Nat)
+    (g : Gen.ts_vregx_resid_mean.St) (m : Cross) (st : Option Nat) (e : Nat) (v : Pair) (h : R_resid_mean g m) :
+    Agree sqrt (Gen.ts_vregx_resid_mean.step sqrt xs ys len w mp g st e v).2
+      (emitResid aggMean mp xs ys (Cross.add m v) st e) := by
+  obtain ⟨h0, h1, h2, h3, h4⟩ := h
+  obtain ⟨va, vb⟩ := v
+  unfold emitResid idxWindow
+  cases va <;> cases vb <;>
+    simp only [Gen.ts_vregx_resid_mean.step, Cross.add, h0, h1, h2, h3, h4]
+  all_goals (
+    simp only [decide_eq_true_eq]
+    split
+    next hm =>
+      simp only [hm, ↓reduceIte]
+      refine agree_ite_degen sqrt _ _ _ (fun hd => ?_)
+      · refine mean_emit_core sqrt xs ys _ _ _ _ _ (fun j => ?_)
+        rw [← uget_pair]
+        cases Gen.uget xs j <;> cases Gen.uget ys j <;> simp [residOf, Cross.alpha, Cross.beta, Cross.den, pow_two]
+    next hm =>
+      simp only [hm, ↓reduceIte]
+      rfl)
+
+theorem pows_valids_aux (L : List (Option Rat)) (s : C11.Pow) :
+    L.foldl C11.Pow.step s =
+      ⟨s.n + (valids L).length, (valids L).foldl (fun acc v => acc + id v) s.s1,
+       (valids L).foldl (fun acc v => acc + (fun v => v * v) v) s.s2,
+       (valids L).foldl (fun acc v => acc + (fun v => v * v * v) v) s.s3,
+       (valids L).foldl (fun acc v => acc + (fun v => (v * v) * (v * v)) v) s.s4⟩ := by
+  induction L generalizing s with
+  | nil => simp [valids]
+  | cons x L ih =>
+    cases x with
+    | none => simpa [C11.Pow.step, valids] using ih s
+    | some v =>
+      rw [List.foldl_cons, ih]
+      simp only [C11.Pow.step, valids, List.length_cons, List.foldl_cons, id_eq]
+      congr 1; omega
+
+theorem pows_valids (L : List (Option Rat)) :
+    (C11.pows L).n = (valids L).length ∧ (C11.pows L).s1 = msum id (valids L) ∧
+    (C11.pows L).s2 = msum (fun v => v * v) (valids L) ∧ (C11.pows L).s3 = msum (fun v => v * v * v) (valids L) := by
+  unfold C11.pows msum
+  rw [pows_valids_aux]
+  simp [C11.Pow.zero]
+
+/-- `vstd` (regenerated) of a list of optional residuals against the model's `aggStd` of the valid
+ones; `sqrt 0 = 0` is needed where the variance is floored to zero before the root is taken -/
+theorem vstd_resid (sqrt : Rat → Rat) (hs0 : sqrt 0 = 0) (L : List (Option Rat)) (mp : Nat) (hmp : 2 ≤ mp) :
+    Agree sqrt (GenAgg.vstd.run sqrt L mp) (aggStd mp (valids L)) := by
+  have h := C11Gen.vstd_agree sqrt L mp
+  obtain ⟨e0, e1, e2, _⟩ := pows_valids L
+  unfold C11.vstd C11.vvar C11.vmeanVar at h
+  unfold aggStd
+  simp only [C11.Pow.pvar, e0, e1, e2] at h
+  simp only []
+  have eps : C11.EPS = EPS := rfl
+  rw [eps] at h
+  by_cases h1 : (valids L).length < mp
+  · simp only [h1, true_or, if_true]; trivial
+  · have h2 : ¬ (valids L).length < 2 := by omega
+    have h3 : ¬ (valids L).length = 0 := by omega
+    have h4 : (valids L).length ≥ 2 := by omega
+    simp only [h1, h2, h3, h4, or_self, if_false, if_true] at h ⊢
+    split_ifs at h ⊢ with h5
+    · simp only [C11.sqrtOut, Agree] at h ⊢
+      rw [h, hs0]; simp
+    · simp only [C11.sqrtOut] at h
+      have hc : (((valids L).length - 1 : Nat) : Rat) = ((valids L).length : Rat) - 1 := by
+        rw [Nat.cast_sub (by omega)]; simp
+      rw [hc] at h
+      exact h
+
+/-- `vskew` (regenerated) of a list of optional residuals against the model's `aggSkew` of the valid
+ones, in the weak form: the NaN mask, the floored-variance zero and the branch structure (the closed
+form is rewritten under the root sign in the model) -/
+theorem vskew_resid (sqrt : Rat → Rat) (L : List (Option Rat)) (mp : Nat) :
+    AgreeW (GenAgg.vskew.run sqrt L mp) (aggSkew mp (valids L)) := by
+  obtain ⟨e0, e1, e2, e3⟩ := pows_valids L
+  unfold GenAgg.vskew.run
+  simp only []
+  rw [C11Gen.vapplyN_pow3 _ (fun a b c v => by first | rfl | (simp only [pow_two]) | (simp [pow_two, pow_succ]; try ring)) L]
+  unfold aggSkew
+  simp only [← e0, ← e1, ← e2, ← e3, C11Gen.eps_eq, decide_eq_true_eq]
+  have eps : C11.EPS = EPS := rfl
+  rw [eps]
+  generalize C11.pows L = s
+  by_cases h1 : s.n < mp
+  · simp [h1, AgreeW]
+  · by_cases h2 : s.n ≥ 3
+    · simp only [h1, h2, if_false, if_true, sq]
+      by_cases h3 : s.s2 / ↑s.n - s.s1 / ↑s.n * (s.s1 / ↑s.n) ≤ EPS
+      · simp [h3, AgreeW]
+      · simp only [h3, if_false, AgreeW]
+        split_ifs <;> simp
+    · simp [h1, h2, AgreeW]
+
+theorem std_emit_core (sqrt : Rat → Rat) (hs0 : sqrt 0 = 0) (xs ys : List (Option Rat)) (alpha beta : Rat) (a n : Nat)
+    (F : Nat → Option Rat) (hF : ∀ j, F j = residOf alpha beta (ugetPair xs ys j)) :
+    Agree sqrt (GenAgg.vstd.run sqrt ((List.range' a n).map F) 2)
+      (aggStd 2 (resids alpha beta ((List.range' a n).map (ugetPair xs ys)))) := by
+  have : (List.range' a n).map F = ((List.range' a n).map (ugetPair xs ys)).map (residOf alpha beta) := by
+    rw [List.map_map]; apply List.map_congr_left; intro j _; exact hF j
+  rw [this, resids_valids]
+  exact vstd_resid sqrt hs0 _ 2 (le_refl 2)
+
+theorem skew_emit_core (sqrt : Rat → Rat) (xs ys : List (Option Rat)) (alpha beta : Rat) (a n : Nat)
+    (F : Nat → Option Rat) (hF : ∀ j, F j = residOf alpha beta (ugetPair xs ys j)) :
+    AgreeW (GenAgg.vskew.run sqrt ((List.range' a n).map F) 3)
+      (aggSkew 3 (resids alpha beta ((List.range' a n).map (ugetPair xs ys)))) := by
+  have : (List.range' a n).map F = ((List.range' a n).map (ugetPair xs ys)).map (residOf alpha beta) := by
+    rw [List.map_map]; apply List.map_congr_left; intro j _; exact hF j
+  rw [this, resids_valids]
+  exact vskew_resid sqrt _ 3
+
+theorem agreeW_ite_degen (c : Prop) [Decidable c] (o : Option Rat) (t : Out)
+    (h : ¬ c → AgreeW o t) : AgreeW o (if c then .degen else t) := by
+  by_cases hc : c
+  · simp only [hc, if_true]; trivial
+  · simp only [hc, if_false]; exact h hc
+
+theorem ts_vregx_resid_std_emit (sqrt : Rat → Rat) (hs0 : sqrt 0 = 0) (xs ys : List (Option Rat)) (len w mp : Nat)
+    (g : Gen.ts_vregx_resid_std.St) (m : Cross) (st : Option Nat) (e : Nat) (v : Pair) (h : R_resid_std g m) :
+    Agree sqrt (Gen.ts_vregx_resid_std.step sqrt xs ys len w mp g st e v).2
+      (emitResid (aggStd 2) mp xs ys (Cross.add m v) st e) := by
+  obtain ⟨h0, h1, h2, h3, h4⟩ := h
+  obtain ⟨va, vb⟩ := v
+  unfold emitResid idxWindow
+  cases va <;> cases vb <;>
+    simp only [Gen.ts_vregx_resid_std.step, Cross.add, h0, h1, h2, h3, h4]
+  all_goals (
+    simp only [decide_eq_true_eq]
+    split
+    next hm =>
+      simp only [hm, ↓reduceIte]
+      refine agree_ite_degen sqrt _ _ _ (fun hd => ?_)
+      · refine std_emit_core sqrt hs0 xs ys _ _ _ _ _ (fun j => ?_)
+        rw [← uget_pair]
+        cases Gen.uget xs j <;> cases Gen.uget ys j <;> simp [residOf, Cross.alpha, Cross.beta, Cross.den, pow_two]
+    next hm =>
+      simp only [hm, ↓reduceIte]
+      rfl)
+
+theorem ts_vregx_resid_skew_emit (sqrt : Rat → Rat) (xs ys : List (Option Rat)) (len w mp : Nat)
+    (g : Gen.ts_vregx_resid_skew.St) (m : Cross) (st : Option Nat) (e : Nat) (v : Pair) (h : R_resid_skew g m) :
+    AgreeW (Gen.ts_vregx_resid_skew.step sqrt xs ys len w mp g st e v).2
+      (emitResid (aggSkew 3) mp xs ys (Cross.add m v) st e) := by
+  obtain ⟨h0, h1, h2, h3, h4⟩ := h
+  obtain ⟨va, vb⟩ := v
+  unfold emitResid idxWindow
+  cases va <;> cases vb <;>
+    simp only [Gen.ts_vregx_resid_skew.step, Cross.add, h0, h1, h2, h3, h4]
+  all_goals (
+    simp only [decide_eq_true_eq]
+    split
+    next hm =>
+      simp only [hm, ↓reduceIte]
+      refine agreeW_ite_degen _ _ _ (fun hd => ?_)
+      · refine skew_emit_core sqrt xs ys _ _ _ _ _ (fun j => ?_)
+        rw [← uget_pair]
+        cases Gen.uget xs j <;> cases Gen.uget ys j <;> simp [residOf, Cross.alpha, Cross.beta, Cross.den, pow_two]
+    next hm =>
+      simp only [hm, ↓reduceIte]
+      rfl)
+
+/-- the regenerated index-driven two-series closures, run over `(start?, end, (a, b))` calls -/
+def genRunIdx2 {σ : Type} (step : σ → Option Nat → Nat → Pair → σ × Option Rat) (s : σ)
+    (cs : List (Option Nat × Nat × Pair)) : List (Option Rat) :=
+  runSt (fun s c => step s c.1 c.2.1 c.2.2) s cs
+
+theorem idxRun_sim {σ : Type} (xs ys : List (Option Rat)) (f : σ → Option Nat → Nat → Pair → σ × Option Rat)
+    (R : σ → Cross → Prop) (A : Option Rat → Out → Prop) (emit : Cross → Option Nat → Nat → Out)
+    (hstate : ∀ g m st e v, R g m → R (f g st e v).1 (residNext xs ys m st v))
+    (hemit : ∀ g m st e v, R g m → A (f g st e v).2 (emit (Cross.add m v) st e)) :
+    ∀ (cs : List (Option Nat × Nat × Pair)) (g : σ) (m : Cross), R g m →
+      List.Forall₂ A (genRunIdx2 f g cs) (idxRun (ugetPair xs ys) Cross.add Cross.remove emit m cs) := by
+  intro cs
+  induction cs with
+  | nil => intro g m _; exact List.Forall₂.nil
+  | cons c cs ih =>
+    intro g m hr
+    obtain ⟨st, e, v⟩ := c
+    refine List.Forall₂.cons (hemit g m st e v hr) ?_
+    have := ih _ _ (hstate g m st e v hr)
+    cases st <;> exact this
+
+theorem ts_vregx_resid_mean_minPeriods (len w : Nat) (mp : Option Nat) : Gen.ts_vregx_resid_mean.minPeriods len w mp = effMp mp w 0 := by
+  simp [Gen.ts_vregx_resid_mean.minPeriods, effMp, Fn2.minK]
+theorem ts_vregx_resid_mean_window (len w : Nat) : Gen.ts_vregx_resid_mean.effWindow len w = w := rfl
+
+/-- the closure regenerated from the source of `ts_vregx_resid_mean` (running sums, the regression
+coefficients, the residuals of the window re-read through `uget`, and the aggregation of agg.rs,
+itself regenerated), driven over the index callbacks of either driver shape, yields the statistic of
+the least-squares residuals of the pairwise-complete observations of the window at every position -/
+theorem ts_vregx_resid_mean_exact (sqrt : Rat → Rat) (sh : Shape) (xs ys : List (Option Rat)) (w : Nat) (mp : Option Nat)
+    (hw : 1 ≤ w) (hlen : ys.length = xs.length) :
+    List.Forall₂ (Agree sqrt)
+      (genRunIdx2 (Gen.ts_vregx_resid_mean.step sqrt xs ys xs.length w (Gen.ts_vregx_resid_mean.minPeriods xs.length w mp))
+        (Gen.ts_vregx_resid_mean.init xs.length w) (idx2Calls sh xs ys (Gen.ts_vregx_resid_mean.effWindow xs.length w)))
+      (rolling2 (regxResidMean (effMp mp w 0)) xs ys w) := by
+  rw [ts_vregx_resid_mean_minPeriods, ts_vregx_resid_mean_window, ← C04.vregx_resid_mean_exact sh xs ys w mp hw hlen]
+  unfold ts2
+  simp only [Fn2.minK]
+  exact idxRun_sim xs ys _ R_resid_mean (Agree sqrt) _
+    (fun g m st e v hr => ts_vregx_resid_mean_state sqrt xs ys xs.length w _ g m st e v hr)
+    (fun g m st e v hr => ts_vregx_resid_mean_emit sqrt xs ys xs.length w _ g m st e v hr) _ _ _
+    (by simp [R_resid_mean, Gen.ts_vregx_resid_mean.init, Cross.zero])
+
+/-- **from source, end to end**: regenerated two-series index driver (both shapes) + regenerated closure
++ regenerated aggregation -/
+theorem ts_vregx_resid_mean_from_source (sqrt : Rat → Rat) (xs ys : List (Option Rat)) (w : Nat) (mp : Option Nat)
+    (hw : 1 ≤ w) (hlen : ys.length = xs.length) :
+    C02Gen.E2EIdx2 (fun cs => List.Forall₂ (Agree sqrt)
+      (genRunIdx2 (Gen.ts_vregx_resid_mean.step sqrt xs ys xs.length w (Gen.ts_vregx_resid_mean.minPeriods xs.length w mp)) (Gen.ts_vregx_resid_mean.init xs.length w) cs)
+      (rolling2 (regxResidMean (effMp mp w 0)) xs ys w)) xs ys (Gen.ts_vregx_resid_mean.effWindow xs.length w) :=
+  C02Gen.e2e_idx2 _ xs ys _ hw (by omega) (ts_vregx_resid_mean_exact sqrt .to xs ys w mp hw hlen)
+    (ts_vregx_resid_mean_exact sqrt .iter xs ys w mp hw hlen)
+
+theorem ts_vregx_resid_std_minPeriods (len w : Nat) (mp : Option Nat) : Gen.ts_vregx_resid_std.minPeriods len w mp = effMp mp w 0 := by
+  simp [Gen.ts_vregx_resid_std.minPeriods, effMp, Fn2.minK]
+theorem ts_vregx_resid_std_window (len w : Nat) : Gen.ts_vregx_resid_std.effWindow len w = w := rfl
+
+/-- the closure regenerated from the source of `ts_vregx_resid_std` (running sums, the regression
+coefficients, the residuals of the window re-read through `uget`, and the aggregation of agg.rs,
+itself regenerated), driven over the index callbacks of either driver shape, yields the statistic of
+the least-squares residuals of the pairwise-complete observations of the window at every position -/
+theorem ts_vregx_resid_std_exact (sqrt : Rat → Rat) (hs0 : sqrt 0 = 0) (sh : Shape) (xs ys : List (Option Rat)) (w : Nat) (mp : Option Nat)
+    (hw : 1 ≤ w) (hlen : ys.length = xs.length) :
+    List.Forall₂ (Agree sqrt)
+      (genRunIdx2 (Gen.ts_vregx_resid_std.step sqrt xs ys xs.length w (Gen.ts_vregx_resid_std.minPeriods xs.length w mp))
+        (Gen.ts_vregx_resid_std.init xs.length w) (idx2Calls sh xs ys (Gen.ts_vregx_resid_std.effWindow xs.length w)))
+      (rolling2 (regxResidStd (effMp mp w 0)) xs ys w) := by
+  rw [ts_vregx_resid_std_minPeriods, ts_vregx_resid_std_window, ← C04.vregx_resid_std_exact sh xs ys w mp hw hlen]
+  unfold ts2
+  simp only [Fn2.minK]
+  exact idxRun_sim xs ys _ R_resid_std (Agree sqrt) _
+    (fun g m st e v hr => ts_vregx_resid_std_state sqrt xs ys xs.length w _ g m st e v hr)
+    (fun g m st e v hr => ts_vregx_resid_std_emit sqrt hs0 xs ys xs.length w _ g m st e v hr) _ _ _
+    (by simp [R_resid_std, Gen.ts_vregx_resid_std.init, Cross.zero])
+
+/-- **from source, end to end**: regenerated two-series index driver (both shapes) + regenerated closure
++ regenerated aggregation -/
+theorem ts_vregx_resid_std_from_source (sqrt : Rat → Rat) (hs0 : sqrt 0 = 0) (xs ys : List (Option Rat)) (w : Nat) (mp : Option Nat)
+    (hw : 1 ≤ w) (hlen : ys.length = xs.length) :
+    C02Gen.E2EIdx2 (fun cs => List.Forall₂ (Agree sqrt)
+      (genRunIdx2 (Gen.ts_vregx_resid_std.step sqrt xs ys xs.length w (Gen.ts_vregx_resid_std.minPeriods xs.length w mp)) (Gen.ts_vregx_resid_std.init xs.length w) cs)
+      (rolling2 (regxResidStd (effMp mp w 0)) xs ys w)) xs ys (Gen.ts_vregx_resid_std.effWindow xs.length w) :=
+  C02Gen.e2e_idx2 _ xs ys _ hw (by omega) (ts_vregx_resid_std_exact sqrt hs0 .to xs ys w mp hw hlen)
+    (ts_vregx_resid_std_exact sqrt hs0 .iter xs ys w mp hw hlen)
+
+theorem ts_vregx_resid_skew_minPeriods (len w : Nat) (mp : Option Nat) : Gen.ts_vregx_resid_skew.minPeriods len w mp = effMp mp w 0 := by
+  simp [Gen.ts_vregx_resid_skew.minPeriods, effMp, Fn2.minK]
+theorem ts_vregx_resid_skew_window (len w : Nat) : Gen.ts_vregx_resid_skew.effWindow len w = w := rfl
+
+/-- the closure regenerated from the source of `ts_vregx_resid_skew` (running sums, the regression
+coefficients, the residuals of the window re-read through `uget`, and the aggregation of agg.rs,
+itself regenerated), driven over the index callbacks of either driver shape, yields the statistic of
+the least-squares residuals of the pairwise-complete observations of the window at every position -/
+theorem ts_vregx_resid_skew_exact (sqrt : Rat → Rat) (sh : Shape) (xs ys : List (Option Rat)) (w : Nat) (mp : Option Nat)
+    (hw : 1 ≤ w) (hlen : ys.length = xs.length) :
+    List.Forall₂ AgreeW
+      (genRunIdx2 (Gen.ts_vregx_resid_skew.step sqrt xs ys xs.length w (Gen.ts_vregx_resid_skew.minPeriods xs.length w mp))
+        (Gen.ts_vregx_resid_skew.init xs.length w) (idx2Calls sh xs ys (Gen.ts_vregx_resid_skew.effWindow xs.length w)))
+      (rolling2 (regxResidSkew (effMp mp w 0)) xs ys w) := by
+  rw [ts_vregx_resid_skew_minPeriods, ts_vregx_resid_skew_window, ← C04.vregx_resid_skew_exact sh xs ys w mp hw hlen]
+  unfold ts2
+  simp only [Fn2.minK]
+  exact idxRun_sim xs ys _ R_resid_skew AgreeW _
+    (fun g m st e v hr => ts_vregx_resid_skew_state sqrt xs ys xs.length w _ g m st e v hr)
+    (fun g m st e v hr => ts_vregx_resid_skew_emit sqrt xs ys xs.length w _ g m st e v hr) _ _ _
+    (by simp [R_resid_skew, Gen.ts_vregx_resid_skew.init, Cross.zero])
+
+/-- **from source, end to end**: regenerated two-series index driver (both shapes) + regenerated closure
++ regenerated aggregation -/
+theorem ts_vregx_resid_skew_from_source (sqrt : Rat → Rat) (xs ys : List (Option Rat)) (w : Nat) (mp : Option Nat)
+    (hw : 1 ≤ w) (hlen : ys.length = xs.length) :
+    C02Gen.E2EIdx2 (fun cs => List.Forall₂ AgreeW
+      (genRunIdx2 (Gen.ts_vregx_resid_skew.step sqrt xs ys xs.length w (Gen.ts_vregx_resid_skew.minPeriods xs.length w mp)) (Gen.ts_vregx_resid_skew.init xs.length w) cs)
+      (rolling2 (regxResidSkew (effMp mp w 0)) xs ys w)) xs ys (Gen.ts_vregx_resid_skew.effWindow xs.length w) :=
+  C02Gen.e2e_idx2 _ xs ys _ hw (by omega) (ts_vregx_resid_skew_exact sqrt .to xs ys w mp hw hlen)
+    (ts_vregx_resid_skew_exact sqrt .iter xs ys w mp hw hlen)
+
+theorem resid_closures_present :
+    ∀ n ∈ ["ts_vregx_resid_mean", "ts_vregx_resid_std", "ts_vregx_resid_skew"], n ∈ Gen.closures := by
+  simp [Gen.closures]
 end Tv.C04Gen
